@@ -8,7 +8,11 @@
    atomic steps of Sync/Once.v; entries naming a disabled thread are skipped;
    no length bound). [run (init progs) s] is therefore an arbitrary reachable
    configuration. The trace is a ghost log of the steps taken, newest first.
-   sync.Once itself is the trusted abstract machine described in Sync/Once.v.
+   sync.Once is the abstract machine described in Sync/Once.v; the second part
+   of this file (C17_once_refinement and the C17_impl_* theorems) shows that
+   this machine is a sound abstraction of sync.Once's own code transcribed
+   over sync.Mutex and an atomic flag (Sync/OnceImpl.v), so that what is
+   trusted is the mutex and the atomic load/store, not a contract of Once.
    A user function either returns its result tuple [f_res] or, when
    [f_aborts] is set, leaves by a panic or runtime.Goexit: the Once is then
    consumed all the same, nothing is written to the fields, and the caller of
@@ -16,7 +20,7 @@
    once f was the function invoked: its results, or the zero values if it
    aborted. With no aborting function the statements below are literally the
    ones about returning functions only. *)
-From Typ Require Import Lib.Base Sync.Once Sync.OnceProofs.
+From Typ Require Import Lib.Base Sync.Once Sync.OnceProofs Sync.OnceImpl Sync.OnceImplProofs.
 
 (* Exactly once: at most one function is ever started; never more completions
    than starts; and as soon as any Do has returned, exactly one function has
@@ -123,6 +127,100 @@ Theorem C17_no_deadlock : forall (V : Type) (zero : V) (arity : nat) (progs : li
 Proof. exact no_deadlock. Qed.
 Print Assumptions C17_no_deadlock.
 
+(* Finished runs: if anybody called Do at all and every call has returned (or
+   its goroutine is gone), exactly one function was started - no response
+   needs to be exhibited. Together with C17_no_deadlock: a run can always be
+   continued until it is finished. *)
+Theorem C17_finished_exactly_one : forall (V : Type) (zero : V) (arity : nat) (progs : list (list (ufun V))) (s : list tid),
+  let c := run zero arity (init zero arity progs) s in
+  finished c -> (exists t f, In (EInv t f) (c_trace c)) -> length (starts (c_trace c)) = 1.
+Proof. exact finished_exactly_one. Qed.
+Print Assumptions C17_finished_exactly_one.
+
+(* ================================================================== *)
+(*  sync.Once itself: transcription over Mutex + atomic flag, and the   *)
+(*  proof that the abstract machine above simulates it                   *)
+(* ================================================================== *)
+
+(* REFINEMENT. [crun (cinit progs) s] is an arbitrary reachable configuration
+   of OnceN.Do with sync.Once's code inlined (fast path done.Load, doSlow:
+   m.Lock, defer m.Unlock, done.Load, defer done.Store(1), the closure; one
+   step per atomic operation, deferred calls also on panic / Goexit). Seen
+   through [abs] (Once state := ODone if done = 1, Running w if the mutex
+   holder w is between the second done.Load and the done.Store, NotStarted
+   otherwise; program counters collapsed) it is a configuration the abstract
+   machine reaches under some schedule s'. [abs] keeps the trace, the fields
+   and every thread's results, so every theorem above transfers. *)
+Theorem C17_once_refinement : forall (V : Type) (zero : V) (arity : nat) (progs : list (list (ufun V))) (s : list tid),
+  exists s', abs (crun zero arity (cinit zero arity progs) s) = run zero arity (init zero arity progs) s'.
+Proof. exact once_refines. Qed.
+Print Assumptions C17_once_refinement.
+
+Theorem C17_abs_observables : forall (V : Type) (c : cconfig V),
+  c_trace (abs c) = cc_trace c /\ c_R (abs c) = cc_R c /\
+  map (@th_rets V) (c_threads (abs c)) = map (@ct_rets V) (cc_threads c) /\
+  map (@th_prog V) (c_threads (abs c)) = map (@ct_prog V) (cc_threads c).
+Proof. exact abs_observables. Qed.
+Print Assumptions C17_abs_observables.
+
+(* The contract of sync.Once, now proved of its code: at most one function is
+   ever started; ... *)
+Theorem C17_impl_exactly_once : forall (V : Type) (zero : V) (arity : nat) (progs : list (list (ufun V))) (s : list tid),
+  let tr := cc_trace (crun zero arity (cinit zero arity progs) s) in
+  length (starts tr) <= 1 /\ length (fins tr) <= length (starts tr) /\
+  ((exists t r, In (ERet t r) tr) ->
+     exists w f, starts tr = [(w, f)] /\ fins tr = (if f_aborts f then [] else [(w, f_res f)])).
+Proof. exact impl_exactly_once. Qed.
+Print Assumptions C17_impl_exactly_once.
+
+(* ... every Do returns the invocation's results, which are what the fields hold; ... *)
+Theorem C17_impl_same_results : forall (V : Type) (zero : V) (arity : nat) (progs : list (list (ufun V))) (s : list tid) t r,
+  let c := crun zero arity (cinit zero arity progs) s in
+  In (ERet t r) (cc_trace c) ->
+  exists w f, starts (cc_trace c) = [(w, f)] /\ r = outcome_tuple zero arity f /\ cc_R c = outcome_tuple zero arity f.
+Proof. exact impl_same_results. Qed.
+Print Assumptions C17_impl_same_results.
+
+(* ... no Do returns before done = 1 was stored ([EDone] / [EAbort] are logged
+   by exactly the two done.Store steps), which is after the closure returned
+   or aborted; and no step of the closure happens after any return, i.e. no
+   Do returns while the function runs; ... *)
+Theorem C17_impl_returns_after_store : forall (V : Type) (zero : V) (arity : nat) (progs : list (list (ufun V))) (s : list tid)
+    later t r earlier,
+  cc_trace (crun zero arity (cinit zero arity progs) s) = later ++ ERet t r :: earlier ->
+  (exists w f, In (EStart w f) earlier /\
+     ((f_aborts f = false /\ In (EFin w (f_res f)) earlier /\ In (EDone w) earlier) \/
+      (f_aborts f = true /\ In (EAbort w) earlier))) /\
+  (forall e, In e later -> ~ is_work e).
+Proof. exact impl_returns_after_store. Qed.
+Print Assumptions C17_impl_returns_after_store.
+
+(* ... a function that panics or calls Goexit consumes the Once (done = 1, no
+   field ever written, every response carries the zero values); ... *)
+Theorem C17_impl_abort_consumes : forall (V : Type) (zero : V) (arity : nat) (progs : list (list (ufun V))) (s : list tid) w,
+  let c := crun zero arity (cinit zero arity progs) s in
+  In (EAbort w) (cc_trace c) ->
+  cc_done c = true /\ cc_R c = repeat zero arity /\
+  (exists f, starts (cc_trace c) = [(w, f)] /\ f_aborts f = true) /\ fins (cc_trace c) = [] /\
+  (forall e, In e (cc_trace c) -> ~ is_write e) /\
+  (forall t r, In (ERet t r) (cc_trace c) -> r = repeat zero arity).
+Proof. exact impl_abort_consumes. Qed.
+Print Assumptions C17_impl_abort_consumes.
+
+(* ... and the code does not deadlock: the mutex is always released (also on
+   panic / Goexit), so some thread can move until every call has returned. *)
+Theorem C17_impl_no_deadlock : forall (V : Type) (zero : V) (arity : nat) (progs : list (list (ufun V))) (s : list tid),
+  let c := crun zero arity (cinit zero arity progs) s in
+  cfinished c \/ exists t c', cstep zero arity c t = Some c'.
+Proof. exact impl_no_deadlock. Qed.
+Print Assumptions C17_impl_no_deadlock.
+
+Theorem C17_impl_finished_exactly_one : forall (V : Type) (zero : V) (arity : nat) (progs : list (list (ufun V))) (s : list tid),
+  let c := crun zero arity (cinit zero arity progs) s in
+  cfinished c -> (exists t f, In (EInv t f) (cc_trace c)) -> length (starts (cc_trace c)) = 1.
+Proof. exact impl_finished_exactly_one. Qed.
+Print Assumptions C17_impl_finished_exactly_one.
+
 (* Non-vacuity: three goroutines on a Once2; thread 1 wins the race while
    thread 0 is already inside Do, thread 2 arrives later, thread 0 calls twice.
    Every call returns thread 1's (5,6), one function ran, all calls returned.
@@ -143,5 +241,29 @@ Example C17_example :
 Proof.
   vm_compute. repeat split; try reflexivity.
   - exists 2, [5;6]%Z. left. reflexivity.
+  - tauto.
+Qed.
+
+(* Non-vacuity for the transcription: thread 0 passes the fast path, takes the
+   mutex and runs its function; thread 1 passes the fast path too (done is
+   still 0) and blocks on the mutex; after thread 0 stored done and unlocked,
+   thread 1 locks, sees done = 1, unlocks and reads; thread 2 arrives later
+   and takes the fast path. All get (7,8); the run is finished; an aborting
+   variant leaves the others with (0,0) and the mutex free. *)
+Example C17_impl_example :
+  let progs := [[UFun 1 [7;8] false]; [UFun 0 [5;6] false]; [UFun 0 [9;9] false]]%Z in
+  let c := crun 0%Z 2 (cinit 0%Z 2 progs) ([0;0;1;1;0;0;1;0;1] ++ repeat 0 12 ++ repeat 1 8 ++ repeat 2 8) in
+  starts (cc_trace c) = [(0, UFun 1 [7;8]%Z false)] /\ cc_done c = true /\ cc_mutex c = None /\
+  map (@ct_rets Z) (cc_threads c) = [[[7;8]]; [[7;8]]; [[7;8]]]%Z /\
+  map (@ct_pc Z) (cc_threads c) = [CIdle; CIdle; CIdle] /\
+  (exists t f, In (EInv t f) (cc_trace c)) /\
+  let progs' := [[UFun 1 [7;8] true]; [UFun 0 [5;6] false]; [UFun 0 [9;9] false]]%Z in
+  let c' := crun 0%Z 2 (cinit 0%Z 2 progs') ([0;0;1;1;0;0;1;0;1] ++ repeat 0 12 ++ repeat 1 8 ++ repeat 2 8) in
+  In (EAbort 0) (cc_trace c') /\ cc_done c' = true /\ cc_mutex c' = None /\
+  map (@ct_rets Z) (cc_threads c') = [[]; [[0;0]]; [[0;0]]]%Z /\
+  map (@ct_pc Z) (cc_threads c') = [CDead; CIdle; CIdle].
+Proof.
+  vm_compute. repeat split; try reflexivity.
+  - exists 2, (UFun 0 [9;9]%Z false). tauto.
   - tauto.
 Qed.
